@@ -35,8 +35,8 @@ func (fr *Frame) lookupLocal(name string, at *ssa.BasicBlock, atInstr ssa.Instru
 		if o == nil || o.Name() != name {
 			return Val{}, false
 		}
-		if _, isVar := o.(*types.Var); !isVar {
-			return Val{}, false
+		if v, isVar := o.(*types.Var); !isVar || v.IsField() {
+			return Val{}, false // a selector x.f is recorded under the field object f: that is not a local named f
 		}
 		if d.IsAddr {
 			if _, ok := fr.vals[d.X]; !ok {
